@@ -38,6 +38,8 @@ Cfg_quick == { Cfg(cap, m, <<>>, T, <<E2, EJ>>) : cap \in {1, 2}, m \in Modes }
        \cup { Cfg(2, m, <<>>, T, <<E2, E2, J1>>) : m \in Modes }
        \cup { Cfg(cap, m, f, T, <<E2, EJ>>) : cap \in {1, 2}, m \in Modes, f \in FaultsNZ(2) }
        \cup { Cfg(2, m, f, F, <<E1, <<"e", "s", "j">> >>) : m \in Modes, f \in FaultsNZ(2) }
+\* ---- the join clause exactly as stated (see finding C16_join_behind_inflight_push)
+Cfg_joinstrict == { Cfg(2, m, <<>>, T, <<E1, E1, J1>>) : m \in Modes }
 \* ---- weak memory (Stale = TRUE): the acquire / release edges on _events carry the publication
 Cfg_wm == { Cfg(cap, "a", <<>>, T, <<E1, EJ>>) : cap \in {1, 2} }
      \cup { Cfg(2, "i", <<>>, T, <<E1, EJ>>) }
